@@ -469,6 +469,12 @@ def make_loop_handler(invariants=None):
                         (shape_eq(v.shape, shp) is True or ex.solver.implied([p for p in s.pc if is_z(p)], shape_eq(v.shape, shp), final=True) is True)
                     if not ok:
                         raise Unsupported(f'loop at line {n.lineno}: array variable {nm} changes shape across iterations')
+            if getattr(s, 'ctrl', None) == 'break':
+                s.ctrl = None
+                out.append(s)            # leaves the loop with the state reached at the break
+                continue
+            if getattr(s, 'ctrl', None) == 'continue':
+                s.ctrl = None
             if s.done:
                 out.append(s)            # return / raise inside the loop
             elif inv is not None:
